@@ -243,9 +243,36 @@ class LedgerGen:
         self.tags.add("scripted-rollback:" + field)
         self.tags.add("rollback")
 
+    def scripted_fork_rollback(self):
+        """beyond the journal window: roll back a few blocks, commit a different continuation (its pruning bound lies below the
+        retained minimum), then ask for a target below the window: refused, and nothing may have moved"""
+        r = self.r
+        if self.height < 12:
+            return
+        back = r.choice([2, 3, 4])
+        self.ops.append(f"rollback {self.height - back}")
+        self.ops.append("ver")
+        self.height -= back
+        for _ in range(r.choice([1, 1, 2])):
+            self.plain_block([f"setbal {r.choice(ACCTS)} {r.choice([3, 9, 27])}", f"set {r.choice(ACCTS)} {r.choice(KEYS)} {self.val()}"])
+        self.dump()
+        # targets around the lower end of the window (the head before the fork was self.height + back - ...)
+        for t in sorted({max(0, self.height - 11), max(0, self.height - 12), max(0, self.height - 10 - back)}):
+            self.ops.append(f"rollback {t}")
+            self.ops.append("ver")
+            self.dump()
+            if t >= self.height - 10:
+                break      # may have been a legitimate rollback: the generator's height guess ends here
+        self.tags.add("scripted-fork-rollback")
+
     def history(self, nblocks, rollbacks=True):
+        fork_at = self.r.choice([12, 13, 14, 15]) if nblocks >= 12 and rollbacks else None
         for _ in range(nblocks):
             self.block()
+            if fork_at is not None and self.height == fork_at:
+                self.scripted_fork_rollback()
+                fork_at = None
+                break
             if rollbacks and self.r.random() < 0.12 and self.height > 0:
                 self.rollback()
             if rollbacks and self.r.random() < 0.08:
